@@ -74,6 +74,16 @@ nsync_time nsync_from_time_point_ (nsync_cpp_time_point_ tp) {
 /* Return the nsync_cpp_time_point_ corresponding to absolute time t. */
 nsync_cpp_time_point_ nsync_to_time_point_ (nsync_time t) {
 	nsync_cpp_time_point_ tp;
+	/* The nanosecond count of a time_point is a 64-bit integer:  times more
+	   than about 292 years from the epoch (nsync_time_no_deadline among
+	   them) do not fit.  Saturate instead of overflowing, so that a deadline
+	   in the far future stays in the far future.  */
+	if ((int64_t) NSYNC_TIME_SEC (t) >= INT64_MAX / NSYNC_NS_IN_S_) {
+		return (nsync_cpp_time_point_::max ());
+	}
+	if ((int64_t) NSYNC_TIME_SEC (t) <= INT64_MIN / NSYNC_NS_IN_S_) {
+		return (nsync_cpp_time_point_::min ());
+	}
 	std::chrono::nanoseconds t_ns(NSYNC_TIME_NSEC (t) +
                                       NSYNC_NS_IN_S_ * (int64_t) NSYNC_TIME_SEC (t));
 	nsync_cpp_time_point_::duration tp_dur =
